@@ -120,6 +120,46 @@ func runC03() {
 		}
 		rec(0)
 		_ = states
+		// forks: from every chain of <= 3 steps (4 in thorough), two children of the same parent by every
+		// ordered pair of steps; the second child is created (and logs) before the first one logs
+		forkDepth := 3
+		if tier == "thorough" {
+			forkDepth = 4
+		}
+		var frec func(depth int)
+		frec = func(depth int) {
+			if r.TimeUp() {
+				return
+			}
+			for _, a := range stepAlphabet(depth) {
+				for _, b := range stepAlphabet(depth + 10) {
+					if a.Op == "Output" || b.Op == "Output" {
+						continue // both would go to the second writer; destinations are C05's subject
+					}
+					idx++
+					if idx%int64(n) != int64(shard) {
+						continue
+					}
+					bb := b
+					for _, ef := range redForms[:4] {
+						p := seqx.Program{Steps: append(append([]seqx.Step{}, chain...), a), Sibling: &bb, Entry: ef.entry, Fields: ef.fields, Final: ef.final}
+						out := seqx.Run(p)
+						r.Transitions += int64(len(chain) + 3)
+						checkC03(r, p, out)
+					}
+				}
+			}
+			if depth == forkDepth {
+				return
+			}
+			for _, s := range stepAlphabet(depth) {
+				chain = append(chain, s)
+				frec(depth + 1)
+				chain = chain[:len(chain)-1]
+			}
+		}
+		chain = chain[:0]
+		frec(0)
 		if tier == "thorough" {
 			// depth 6 with at most two deviations from the default step
 			def := func(d int) seqx.Step {
